@@ -352,7 +352,7 @@ def run_check(run, tier, seed, shard):
     deadline = t0 + budget
 
     # 1. random DAGs x orders
-    n_dags = 320 if quick else 12000
+    n_dags = 320 if quick else 9000
     idx = shard_slice(range(n_dags), shard)
     for i in idx:
         if time.time() > deadline or run.too_many:
@@ -374,7 +374,7 @@ def run_check(run, tier, seed, shard):
 
     # 1b. gated clock domains: wrappers with their own ClockDriver(enable=poked input / toggling register / delayed input)
     #     holding registers and combinational leaves fed from outside and from inside the domain
-    n_gated = 70 if quick else 3200
+    n_gated = 70 if quick else 2400
     for i in shard_slice(range(n_gated), shard):
         if time.time() > deadline or run.too_many:
             stats['gated_skipped_time'] = stats.get('gated_skipped_time', 0) + 1
